@@ -242,6 +242,7 @@ def focused(tier):
             out.append(tandem("sched %s %s + block" % (opt, nums), fam, c=({"sched": {"numbers": nums, "ends": ends, "preempt": opt}}, 1),
                               caps=(None, 0), K=K, T=12.0, features=["schedule", "blocking", "preempt_sched"]))
     out += sched_preempt_two_upstream(tier)
+    out += mixed_tandem(tier)
     return out
 
 
